@@ -150,7 +150,7 @@ class Capacity(object):
                     self.last_test = (n.test.comparators[0], 0 if isinstance(op, ast.Lt) else 1, n)
             if isinstance(n, ast.Subscript) and norm(n.value) == p and isinstance(n.slice, ast.Slice):
                 self.slice_exprs.append(n)
-        if self.last_test is None or self.limit_test is None or len(self.slice_exprs) < 2:
+        if self.last_test is None or len(self.slice_exprs) < 2:
             raise Undecided("capacity model: FragmentSender.build has an unmodelled shape")
         pre = [s for s in struct_sites(fi, self.ctx.folder) if s.kind == "pack"]
         if len(pre) != 1 or pre[0].fmt is None:
@@ -190,7 +190,7 @@ class Capacity(object):
         m["CAPS"] = caps
         m["CAP"] = min(caps)
         m["L_last"] = ev(self.last_test[0], self.build) + self.last_test[1]        # last fragment: len < L_last
-        m["LIMIT"] = ev(self.limit_test[0], self.build) + self.limit_test[1]        # largest accepted payload
+        m["LIMIT"] = (ev(self.limit_test[0], self.build) + self.limit_test[1]) if self.limit_test is not None else None   # largest accepted payload
         widths = set()
         for s in self.slice_exprs:
             b = s.slice.upper if s.slice.upper is not None else s.slice.lower
